@@ -145,15 +145,27 @@ pub struct KSpec {
 /// A `Constraints` value for the limits (f, t): built directly, or reached through `update_range` from an object with
 /// other limits (both sides changed, only `to` changed, only `from` changed, two updates in a row). The history is
 /// chosen from the bits of the limits, so a case line always rebuilds the same object; the result must not depend on it.
+/// 0 = history chosen from the bits of the limits; m + 1 = history m forced (directed families)
+pub static FORCE_HISTORY: std::sync::atomic::AtomicU64 = std::sync::atomic::AtomicU64::new(0);
+
+pub fn history_mode(f: &Joints, t: &Joints) -> u64 {
+    let forced = FORCE_HISTORY.load(std::sync::atomic::Ordering::Relaxed);
+    if forced > 0 { return forced - 1; }
+    (f[0].to_bits() ^ t[1].to_bits().rotate_left(7) ^ f[4].to_bits().rotate_left(13)) % 10
+}
+
 pub fn make_constraints(f: &Joints, t: &Joints, w: f64) -> Constraints {
-    let mode = (f[0].to_bits() ^ t[1].to_bits().rotate_left(7) ^ f[4].to_bits().rotate_left(13)) % 8;
+    let mode = history_mode(f, t);
     let shift = |x: &Joints, d: f64| -> Joints { let mut y = *x; for k in 0..6 { if y[k].is_finite() { y[k] += d * (1.0 + k as f64 * 0.1); } } y };
     match mode {
         0..=3 => Constraints::new(*f, *t, w),
         4 => { let mut c = Constraints::new(shift(f, -0.4), shift(t, 0.3), w); c.update_range(*f, *t); c }
         5 => { let mut c = Constraints::new(*f, shift(t, -0.35), w); c.update_range(*f, *t); c }
         6 => { let mut c = Constraints::new(shift(f, 0.45), *t, w); c.update_range(*f, *t); c }
-        _ => { let mut c = Constraints::new(shift(f, 0.2), shift(t, 0.2), w); c.update_range(shift(f, -0.7), *t); c.update_range(*f, *t); c }
+        7 => { let mut c = Constraints::new(shift(f, 0.2), shift(t, 0.2), w); c.update_range(shift(f, -0.7), *t); c.update_range(*f, *t); c }
+        // narrowed from a much wider range / from an unconstrained object
+        8 => { let mut c = Constraints::new(shift(f, -2.0), shift(t, 2.0), w); c.update_range(*f, *t); c }
+        _ => { let mut c = Constraints::new(*f, *f, w); c.update_range(*f, *t); c }
     }
 }
 
@@ -168,7 +180,7 @@ impl KSpec {
         let params = if route == 0 { up([0.0; 6], [0.0; 6]).parameters(&self.p.offsets) } else { self.p };
         match &self.cons {
             Some((f, t, w)) => {
-                if route == 1 && (f[0].to_bits() ^ t[1].to_bits().rotate_left(7) ^ f[4].to_bits().rotate_left(13)) % 8 < 4 {
+                if route == 1 && (f[0].to_bits() ^ t[1].to_bits().rotate_left(7) ^ f[4].to_bits().rotate_left(13)) % 10 < 4 {
                     up(*f, *t).to_robot(*w, &self.p.offsets)
                 } else { OPWKinematics::new_with_constraints(params, make_constraints(f, t, *w)) }
             }
